@@ -296,3 +296,126 @@ class StylePair(Pair):
 
 for c in (RangePair(), RoiPair(), RoiNdPair(), InequalityPair(), CompositePair(), SlicePair(), ListPair(), StylePair()):
     CONTRACTS.append(c)
+
+
+# -------------------------------------------------------------------------------------------------
+# classes of glue/core/subset.py that carry their own __gluestate__ / __setgluestate__
+SUBSET = "glue/core/subset.py"
+
+
+def _lst(x):
+    return x.items if isinstance(x, PList) else (list(x) if isinstance(x, (list, tuple)) else None)
+
+
+class MethodPair(FnContract):
+    property_ids = ('C02', 'C12')
+    cls = None
+    fields = ()                # attribute names read by __gluestate__ (properties are modelled as fields)
+
+    @property
+    def target(self):
+        return SUBSET + ":%s.__setgluestate__" % self.cls
+
+    @property
+    def title(self):
+        return "%s: __setgluestate__ rebuilds the selection from exactly the values __gluestate__ recorded" % self.cls
+
+    def make_object(self, cfg):
+        return PObj(self.cls, fields={f: val(f) for f in self.fields})
+
+    def inputs(self, cfg, P):
+        st = St(made=[], cfg=cfg)
+        st.obj = self.make_object(cfg)
+        st.ctx = make_context()
+        ft = FunctionText(SUBSET, self.cls + '.__gluestate__')
+        rec = Interp(P, self.globals_(cfg, st), Hooks(name=self.cls + '.__gluestate__'), ft).run_function(ft, [st.obj, st.ctx], {})
+        if not isinstance(rec, dict):
+            raise Unsupported("__gluestate__ returned %r" % (rec,))
+        st.rec = dict(rec)
+
+        def make(I, *a, **k):
+            o = PObj(self.cls, fields={'args': a, 'kwargs': k})
+            st.made.append(o)
+            return o
+        return Inputs([Builtin(self.cls, make), st.rec, st.ctx], st=st)
+
+    def ensures(self, cfg, st, result):
+        ok = isinstance(result, PObj) and result.cls == self.cls and len(st.made) == 1 and result is st.made[0]
+        out = [('one-object-of-the-class-is-built', ok)]
+        if ok:
+            out += self.expect(cfg, st, result.fields['args'], result.fields['kwargs'], st.obj.fields)
+        return out
+
+
+class CategoricalRoiMP(MethodPair):
+    cls, fields = 'CategoricalROISubsetState', ('att', 'roi')
+
+    def expect(self, cfg, st, a, k, f):
+        return [('att-and-roi-as-saved', not a and set(k) == {'att', 'roi'} and k['att'] is f['att'] and k['roi'] is f['roi'])]
+
+
+class MultiRangeMP(MethodPair):
+    cls = 'MultiRangeSubsetState'
+
+    def configs(self, tier):
+        return [dict(n=n) for n in (0, 1, 3)]
+
+    def make_object(self, cfg):
+        return PObj(self.cls, fields={'att': val('att'), 'pairs': PList([(val('lo%d' % i), val('hi%d' % i)) for i in range(cfg['n'])])})
+
+    def expect(self, cfg, st, a, k, f):
+        pairs = _lst(a[0]) if len(a) == 1 else None
+        want = f['pairs'].items
+        ok = pairs is not None and len(pairs) == len(want) and all(len(_lst(p) or ()) == 2 and _lst(p)[0] is w[0] and _lst(p)[1] is w[1] for p, w in zip(pairs, want))
+        return [('every-range-with-its-own-bounds-in-order-and-the-attribute-as-saved', bool(ok) and set(k) == {'att'} and k['att'] is f['att'])]
+
+
+class Categorical2DMP(MethodPair):
+    cls, fields = 'CategoricalROISubsetState2D', ('categories', 'att1', 'att2')
+
+    def expect(self, cfg, st, a, k, f):
+        return [('categories-att1-att2-as-saved', not a and set(k) == {'categories', 'att1', 'att2'} and all(k[x] is f[x] for x in self.fields))]
+
+
+class CategoricalMultiRangeMP(MethodPair):
+    cls, fields = 'CategoricalMultiRangeSubsetState', ('ranges', 'cat_att', 'num_att')
+
+    def expect(self, cfg, st, a, k, f):
+        return [('ranges-and-both-attributes-as-saved', not a and set(k) == {'ranges', 'cat_att', 'num_att'} and all(k[x] is f[x] for x in self.fields))]
+
+
+class MultiOrMP(MethodPair):
+    cls = 'MultiOrState'
+
+    def configs(self, tier):
+        return [dict(n=n) for n in (1, 2, 4)]
+
+    def make_object(self, cfg):
+        return PObj(self.cls, fields={'states': PList([val('state%d' % i) for i in range(cfg['n'])])})
+
+    def expect(self, cfg, st, a, k, f):
+        got = _lst(a[0]) if len(a) == 1 else None
+        want = f['states'].items
+        return [('members-as-saved-in-order', not k and got is not None and len(got) == len(want) and all(x is y for x, y in zip(got, want)))]
+
+
+class MaskMP(MethodPair):
+    cls = 'MaskSubsetState'
+
+    def make_object(self, cfg):
+        return PObj(self.cls, fields={'mask': val('mask'), 'cids': PList([val('cid0'), val('cid1')])})
+
+    def expect(self, cfg, st, a, k, f):
+        cids = _lst(a[1]) if len(a) == 2 else None
+        return [('mask-first-then-the-pixel-attributes-in-order', not k and cids is not None and a[0] is f['mask'] and len(cids) == 2 and all(x is y for x, y in zip(cids, f['cids'].items)))]
+
+
+class CategoryMP(MethodPair):
+    cls, fields = 'CategorySubsetState', ('_att', '_categories')
+
+    def expect(self, cfg, st, a, k, f):
+        return [('attribute-then-category-codes-as-saved', not k and len(a) == 2 and a[0] is f['_att'] and a[1] is f['_categories'])]
+
+
+for c in (CategoricalRoiMP(), MultiRangeMP(), Categorical2DMP(), CategoricalMultiRangeMP(), MultiOrMP(), MaskMP(), CategoryMP()):
+    CONTRACTS.append(c)
